@@ -10,7 +10,8 @@ import Tickit.Proof.RBFlushSgr
   VT cell carrying the rendition the grid cell's pen asks for - an erased cell its background only);  `Cur` relates the
   cursors (the grid terminal's `col = cols` is the VT's pending wrap).  One request of the flush keeps both:
   `goto_sim` (establishes `Cur`: every line of a flush starts with a goto), `setpen_sim`, `erase_sim` (outside reverse
-  video), `char_sim` (a print request carrying the UTF-8 form of one printable one-column code point: a CHAR cell).
+  video), `print_sim` (a print request carrying well-formed UTF-8 of printable code points of two, one or no columns that fit on
+  the line: CHAR cells, TEXT runs, LINE batches).
   `sim_xcellOK` turns the grid terminal's `cellOK` into the VT screen's `xcellOK`.
 -/
 namespace Tickit.RBFlushX
@@ -35,13 +36,16 @@ structure Sim (caps : TermPen.Caps) (t0 : GridTerm) (s0 : XScreen) (t : GridTerm
   cells : ∀ l c, (t.cells l c = t0.cells l c ∧ s.cells l c = s0.cells l c) ∨
     Written caps (t0.cells l c) (t.cells l c) (s.cells l c)
 
-/-- The cursors agree: the grid terminal's `col = cols` is the VT's pending wrap on the last column. -/
-structure Cur (t : GridTerm) (s : XScreen) : Prop where
+/-- The cursors agree: the grid terminal's `col = cols` is the VT's pending wrap on the last column; the cell a
+    zero-width character would join is the same, and it is one written since the simulation started. -/
+structure Cur (t0 t : GridTerm) (s : XScreen) : Prop where
   row : s.row = t.line
   rowIn : 0 ≤ t.line ∧ t.line < s.lines
   col : (s.pending = false ∧ s.col = t.col ∧ 0 ≤ t.col ∧ t.col < t.cols) ∨
     (s.pending = true ∧ t.col = t.cols ∧ s.col = t.cols - 1)
   last : s.last = t.last
+  lastW : ∀ p, t.last = some p →
+    (t0.cells p.1 p.2).writes < (t.cells p.1 p.2).writes ∧ ∃ g, (t.cells p.1 p.2).glyph = .chars g
 
 /-- The grid terminal that shows what the VT screen `s` shows, with `tt->pen = cache`, behaving as the xterm driver does
     (`erasech(…, MAYBE)` leaves the cursor, `print` goes through `write_str`). -/
@@ -70,7 +74,7 @@ theorem Sim.mono {caps : TermPen.Caps} {t0 t : GridTerm} {s0 s : XScreen} (h : S
 theorem goto_sim {caps : TermPen.Caps} {t0 t : GridTerm} {s0 s : XScreen} (h : Sim caps t0 s0 t s) (l c : Int)
     (hl : 0 ≤ l) (hc : 0 ≤ c) :
     Sim caps t0 s0 (t.stepL s.lines (.goto l c)) (s.interp (reqCalls caps t.pen (.goto l c)).flatten) ∧
-    Cur (t.stepL s.lines (.goto l c)) (s.interp (reqCalls caps t.pen (.goto l c)).flatten) ∧
+    Cur t0 (t.stepL s.lines (.goto l c)) (s.interp (reqCalls caps t.pen (.goto l c)).flatten) ∧
     (s.interp (reqCalls caps t.pen (.goto l c)).flatten).lines = s.lines := by
   have e : s.interp (reqCalls caps t.pen (.goto l c)).flatten = s.moveTo l c := by
     simp only [reqCalls, call_flatten]
@@ -82,7 +86,7 @@ theorem goto_sim {caps : TermPen.Caps} {t0 t : GridTerm} {s0 s : XScreen} (h : S
   refine ⟨?_, ?_, rfl⟩
   · exact { lines := h.lines, cols := h.cols, cols_pos := h.cols_pos, ground := h.ground, attrs := h.attrs, enc := h.enc,
             oracle := h.oracle, writes := h.writes, cells := h.cells }
-  · refine { row := rfl, rowIn := ?_, col := ?_, last := rfl }
+  · refine { row := rfl, rowIn := ?_, col := ?_, last := rfl, lastW := ?_ }
     · show 0 ≤ max 0 (min l (s.lines - 1)) ∧ max 0 (min l (s.lines - 1)) < s.lines
       omega
     · left
@@ -93,6 +97,10 @@ theorem goto_sim {caps : TermPen.Caps} {t0 t : GridTerm} {s0 s : XScreen} (h : S
         omega
       · show max 0 (min c (t.cols - 1)) < t.cols
         omega
+    · intro p hp
+      have hn : (t.stepL s.lines (.goto l c)).last = none := rfl
+      rw [hn] at hp
+      cases hp
 
 /-! ### setpen -/
 
@@ -101,7 +109,7 @@ theorem goto_sim {caps : TermPen.Caps} {t0 t : GridTerm} {s0 s : XScreen} (h : S
 theorem setpen_sim {caps : TermPen.Caps} {t0 t : GridTerm} {s0 s : XScreen} (h : Sim caps t0 s0 t s) (p : Pen)
     (hp : PenEncodable caps p) :
     Sim caps t0 s0 (t.stepL s.lines (.setpen p)) (s.interp (reqCalls caps t.pen (.setpen p)).flatten) ∧
-    (Cur t s → Cur (t.stepL s.lines (.setpen p)) (s.interp (reqCalls caps t.pen (.setpen p)).flatten)) ∧
+    (Cur t0 t s → Cur t0 (t.stepL s.lines (.setpen p)) (s.interp (reqCalls caps t.pen (.setpen p)).flatten)) ∧
     (s.interp (reqCalls caps t.pen (.setpen p)).flatten).lines = s.lines := by
   rw [interp_setpen caps t.pen p s h.ground h.attrs h.enc hp]
   refine ⟨?_, ?_, rfl⟩
@@ -109,7 +117,7 @@ theorem setpen_sim {caps : TermPen.Caps} {t0 t : GridTerm} {s0 s : XScreen} (h :
             enc := penEncodable_termSetpen caps t.pen p h.enc hp, oracle := h.oracle, writes := h.writes,
             cells := h.cells }
   · intro hc
-    exact { row := hc.row, rowIn := hc.rowIn, col := hc.col, last := hc.last }
+    exact { row := hc.row, rowIn := hc.rowIn, col := hc.col, last := hc.last, lastW := hc.lastW }
 
 /-! ### erasech -/
 
@@ -156,10 +164,10 @@ theorem ech_cells (s : XScreen) (n : Int) (l c : Int) :
     `TICKIT_YES`), does what it does on the grid terminal: the same cells blanked once more, in the background of
     `tt->pen`; the cursors agree afterwards (moved to the end, clamped to the last column, or left where they were -
     also in the pending-wrap state). -/
-theorem erase_sim {caps : TermPen.Caps} {t0 t : GridTerm} {s0 s : XScreen} (h : Sim caps t0 s0 t s) (hcur : Cur t s)
+theorem erase_sim {caps : TermPen.Caps} {t0 t : GridTerm} {s0 s : XScreen} (h : Sim caps t0 s0 t s) (hcur : Cur t0 t s)
     (n : Int) (hn : 1 ≤ n) (m : MaybeBool) (hm : m ≠ .no) (hrv : Pen.getBool t.pen.reverse = false) :
     Sim caps t0 s0 (t.stepL s.lines (.erasech n m)) (s.interp (reqCalls caps t.pen (.erasech n m)).flatten) ∧
-    Cur (t.stepL s.lines (.erasech n m)) (s.interp (reqCalls caps t.pen (.erasech n m)).flatten) ∧
+    Cur t0 (t.stepL s.lines (.erasech n m)) (s.interp (reqCalls caps t.pen (.erasech n m)).flatten) ∧
     (s.interp (reqCalls caps t.pen (.erasech n m)).flatten).lines = s.lines := by
   have e : s.interp (reqCalls caps t.pen (.erasech n m)).flatten =
       if m = .yes then (s.ech n).moveTo s.row (s.col + n) else s.ech n := by
@@ -183,7 +191,7 @@ theorem erase_sim {caps : TermPen.Caps} {t0 t : GridTerm} {s0 s : XScreen} (h : 
     { lines := h.lines, cols := by rw [fc]; exact h.cols, cols_pos := by rw [fc]; exact h.cols_pos, ground := h.ground,
       attrs := by rw [fp]; exact h.attrs, enc := by rw [fp]; exact h.enc, oracle := by rw [fo]; exact h.oracle,
       writes := fun l c => (hcells l c).2, cells := fun l c => (hcells l c).1 }
-  show Sim caps t0 s0 (t.erasech n m) _ ∧ Cur (t.erasech n m) _ ∧ _
+  show Sim caps t0 s0 (t.erasech n m) _ ∧ Cur t0 (t.erasech n m) _ ∧ _
   rw [e]
   have hL := h.lines
   have hC := h.cols_pos
@@ -197,7 +205,8 @@ theorem erase_sim {caps : TermPen.Caps} {t0 t : GridTerm} {s0 s : XScreen} (h : 
     refine ⟨?_, ?_, rfl⟩
     · exact { lines := hsim.lines, cols := hsim.cols, cols_pos := hsim.cols_pos, ground := hsim.ground,
               attrs := hsim.attrs, enc := hsim.enc, oracle := hsim.oracle, writes := hsim.writes, cells := hsim.cells }
-    · refine { row := ?_, rowIn := by rw [fl]; exact hri, col := ?_, last := by rw [fla]; rfl }
+    · refine { row := ?_, rowIn := by rw [fl]; exact hri, col := ?_, last := by rw [fla]; rfl,
+               lastW := by intro p hp; rw [fla] at hp; cases hp }
       · rw [fl]
         show max 0 (min s.row (s.lines - 1)) = t.line
         omega
@@ -212,7 +221,8 @@ theorem erase_sim {caps : TermPen.Caps} {t0 t : GridTerm} {s0 s : XScreen} (h : 
     have hne : (MaybeBool.maybe = MaybeBool.yes) = False := by simp
     simp only [hne, if_false]
     refine ⟨hsim, ?_, rfl⟩
-    refine { row := by rw [fl]; exact hrow, rowIn := by rw [fl]; exact hri, col := ?_, last := by rw [fla]; rfl }
+    refine { row := by rw [fl]; exact hrow, rowIn := by rw [fl]; exact hri, col := ?_, last := by rw [fla]; rfl,
+             lastW := by intro p hp; rw [fla] at hp; cases hp }
     rw [GT.erasech_col_maybe t n hn (h.oracle _), fc]
     exact hcur.col
 
@@ -391,122 +401,95 @@ theorem printBytesL_flatMap (L : Int) (t : GridTerm) (cps : List Nat) (h : ∀ c
   simp only [List.nil_append, List.length_nil] at this
   simp only [GridTerm.printBytesL, this]
 
-/-! ### A print request carrying one printable one-column code point (a CHAR cell) -/
+/-! ### Print requests: characters of two, one and no columns -/
 
-theorem termDecode_end (bs : List UInt8) : ∀ (fuel i : Nat), i ≥ bs.length → GridTerm.termDecode bs fuel i = []
-  | 0, _, _ => rfl
-  | fuel + 1, i, h => by simp [GridTerm.termDecode, h]
-
-/-- The grid terminal decodes the UTF-8 form of a code point as that one character. -/
-theorem termDecode_stdUtf8 (cp : Nat) (h0 : 0 < cp) (h : cp < 0x200000) :
-    GridTerm.termDecode (stdUtf8 cp) ((stdUtf8 cp).length + 1) 0 =
-      [⟨stdUtf8 cp, cp, if Tickit.RB.Utf8.wcwidth cp < 0 then 1 else Tickit.RB.Utf8.wcwidth cp⟩] := by
-  have hl := stdUtf8_length_ne cp
-  have hd := nextUtf8_stdUtf8 cp h0 h
-  simp only [GridTerm.termDecode]
-  rw [if_neg (by omega), Nat.sub_zero, hd]
-  simp only [List.drop_zero, List.take_length, Nat.zero_add]
-  rw [termDecode_end _ _ _ (Nat.le_refl _)]
-
-theorem putWide_fit (s : XScreen) (bs : Bytes) (hp : s.pending = false) (hc : s.col + 1 ≤ s.cols) :
-    s.putWide bs 1 =
-      if s.col + 1 ≥ s.cols then
+theorem putWide_fit (s : XScreen) (bs : Bytes) (w : Int) (hp : s.pending = false) (hc : s.col + w ≤ s.cols) :
+    s.putWide bs w =
+      if s.col + w ≥ s.cols then
         { s with
           cells := fun l c =>
-            if l = s.row ∧ s.col ≤ c ∧ c < s.col + 1 ∧ c < s.cols then
+            if l = s.row ∧ s.col ≤ c ∧ c < s.col + w ∧ c < s.cols then
               { glyph := if c = s.col then .chars bs else .wcont, attrs := s.attrs, writes := (s.cells l c).writes + 1 }
             else s.cells l c
           col := s.cols - 1, pending := true, last := some (s.row, s.col) }
       else
         { s with
           cells := fun l c =>
-            if l = s.row ∧ s.col ≤ c ∧ c < s.col + 1 ∧ c < s.cols then
+            if l = s.row ∧ s.col ≤ c ∧ c < s.col + w ∧ c < s.cols then
               { glyph := if c = s.col then .chars bs else .wcont, attrs := s.attrs, writes := (s.cells l c).writes + 1 }
             else s.cells l c
-          col := s.col + 1, last := some (s.row, s.col) } := by
-  have hn : ¬ (s.pending = true ∨ s.col + 1 > s.cols) := by
+          col := s.col + w, last := some (s.row, s.col) } := by
+  have hn : ¬ (s.pending = true ∨ s.col + w > s.cols) := by
     intro hx
     rcases hx with hx | hx
     · rw [hp] at hx; cases hx
     · omega
   simp only [XScreen.putWide, hn, if_false]
 
-/-- **char_sim**: the print request of a CHAR cell - the UTF-8 form of a printable code point the library's tables give
-    one column - with the cursor not in the pending-wrap state, read by the VT screen, does what it does on the grid
-    terminal: the cell at the cursor shows the character in the rendition of `tt->pen`, written once more; the cursors
-    advance alike (into the pending-wrap state at the last column). -/
-theorem char_sim {caps : TermPen.Caps} {t0 t : GridTerm} {s0 s : XScreen} (h : Sim caps t0 s0 t s) (hcur : Cur t s)
-    (hnp : t.col < t.cols) (cp : Nat) (hp : Printable cp) (hw : Tickit.RB.Utf8.wcwidth cp = 1) :
-    Sim caps t0 s0 (t.stepL s.lines (.print (stdUtf8 cp) 0 (stdUtf8 cp).length))
-      (s.interp (reqCalls caps t.pen (.print (stdUtf8 cp) 0 (stdUtf8 cp).length)).flatten) ∧
-    Cur (t.stepL s.lines (.print (stdUtf8 cp) 0 (stdUtf8 cp).length))
-      (s.interp (reqCalls caps t.pen (.print (stdUtf8 cp) 0 (stdUtf8 cp).length)).flatten) ∧
-    (s.interp (reqCalls caps t.pen (.print (stdUtf8 cp) 0 (stdUtf8 cp).length)).flatten).lines = s.lines := by
-  have hl := stdUtf8_length_ne cp
-  have hP := hp
-  obtain ⟨p1, p2, p3⟩ := hp
+/-- A character of one or two columns that fits on the line: the cells at the cursor show it (second column: the
+    continuation mark) in the rendition of `tt->pen`, written once more, on both terminals; the cursors advance alike
+    (into the pending-wrap state at the last column). -/
+theorem wide_sim {caps : TermPen.Caps} {t0 t : GridTerm} {s0 s : XScreen} (h : Sim caps t0 s0 t s) (hcur : Cur t0 t s)
+    (bs : Bytes) (w : Int) (hw1 : 1 ≤ w) (hfit : t.col + w ≤ t.cols) :
+    Sim caps t0 s0 (t.putGlyphRaw bs w) (s.putWide bs w) ∧ Cur t0 (t.putGlyphRaw bs w) (s.putWide bs w) ∧
+    (s.putWide bs w).lines = s.lines := by
   obtain ⟨hpend, hcol, hc0, hc1⟩ : s.pending = false ∧ s.col = t.col ∧ 0 ≤ t.col ∧ t.col < t.cols := by
     rcases hcur.col with hx | ⟨_, h2, _⟩
     · exact hx
     · omega
   have hcs := h.cols
-  -- the VT screen
-  have es : s.interp (reqCalls caps t.pen (.print (stdUtf8 cp) 0 (stdUtf8 cp).length)).flatten =
-      s.putWide (stdUtf8 cp) 1 := by
-    simp only [reqCalls, if_neg hl, List.drop_zero, List.take_length, call_flatten]
-    rw [XScreen.interp_stdUtf8 s h.ground cp hP]
-    simp [XScreen.putCp, hw]
-  -- the grid terminal
-  have et : t.stepL s.lines (.print (stdUtf8 cp) 0 (stdUtf8 cp).length) = t.putGlyphRaw (stdUtf8 cp) 1 := by
-    have hb : GridTerm.reqBytes t.viaWriteStr (stdUtf8 cp) 0 (stdUtf8 cp).length = stdUtf8 cp := by
-      simp [GridTerm.reqBytes, hl]
-    simp only [GridTerm.stepL, hb, GridTerm.printBytesL, termDecode_stdUtf8 cp (by omega) (by omega), hw,
-      GridTerm.putChsL, List.foldl_cons, List.foldl_nil, GridTerm.putChL, GridTerm.putGlyphL]
-    have hn : ¬ t.col + 1 > t.cols := by omega
-    simp [hn]
-  rw [es, et, putWide_fit s _ hpend (by omega)]
+  rw [putWide_fit s _ w hpend (by omega)]
+  have hg : ∀ l c, (t.putGlyphRaw bs w).cells l c =
+      if l = t.line ∧ t.col ≤ c ∧ c < t.col + w then
+        { glyph := if c = t.col then .chars bs else .wcont, pen := t.pen, writes := (t.cells l c).writes + 1 }
+      else t.cells l c := fun _ _ => rfl
   have hcells : ∀ l c,
-      (((t.putGlyphRaw (stdUtf8 cp) 1).cells l c = t0.cells l c ∧
-        (if l = s.row ∧ s.col ≤ c ∧ c < s.col + 1 ∧ c < s.cols then
-          ({ glyph := if c = s.col then .chars (stdUtf8 cp) else .wcont, attrs := s.attrs,
+      (((t.putGlyphRaw bs w).cells l c = t0.cells l c ∧
+        (if l = s.row ∧ s.col ≤ c ∧ c < s.col + w ∧ c < s.cols then
+          ({ glyph := if c = s.col then .chars bs else .wcont, attrs := s.attrs,
              writes := (s.cells l c).writes + 1 } : XCell)
          else s.cells l c) = s0.cells l c) ∨
-       Written caps (t0.cells l c) ((t.putGlyphRaw (stdUtf8 cp) 1).cells l c)
-        (if l = s.row ∧ s.col ≤ c ∧ c < s.col + 1 ∧ c < s.cols then
-          ({ glyph := if c = s.col then .chars (stdUtf8 cp) else .wcont, attrs := s.attrs,
+       Written caps (t0.cells l c) ((t.putGlyphRaw bs w).cells l c)
+        (if l = s.row ∧ s.col ≤ c ∧ c < s.col + w ∧ c < s.cols then
+          ({ glyph := if c = s.col then .chars bs else .wcont, attrs := s.attrs,
              writes := (s.cells l c).writes + 1 } : XCell)
          else s.cells l c)) ∧
-      (if l = s.row ∧ s.col ≤ c ∧ c < s.col + 1 ∧ c < s.cols then
-          ({ glyph := if c = s.col then .chars (stdUtf8 cp) else .wcont, attrs := s.attrs,
+      (if l = s.row ∧ s.col ≤ c ∧ c < s.col + w ∧ c < s.cols then
+          ({ glyph := if c = s.col then .chars bs else .wcont, attrs := s.attrs,
              writes := (s.cells l c).writes + 1 } : XCell)
-         else s.cells l c).writes = ((t.putGlyphRaw (stdUtf8 cp) 1).cells l c).writes := by
+         else s.cells l c).writes = ((t.putGlyphRaw bs w).cells l c).writes := by
     intro l c
-    have hg : (t.putGlyphRaw (stdUtf8 cp) 1).cells l c =
-        if l = t.line ∧ t.col ≤ c ∧ c < t.col + 1 then
-          { glyph := if c = t.col then .chars (stdUtf8 cp) else .wcont, pen := t.pen, writes := (t.cells l c).writes + 1 }
-        else t.cells l c := rfl
     rw [hg]
-    by_cases hin : l = t.line ∧ t.col ≤ c ∧ c < t.col + 1
-    · have hin2 : l = s.row ∧ s.col ≤ c ∧ c < s.col + 1 ∧ c < s.cols := by
+    by_cases hin : l = t.line ∧ t.col ≤ c ∧ c < t.col + w
+    · have hin2 : l = s.row ∧ s.col ≤ c ∧ c < s.col + w ∧ c < s.cols := by
         rw [hcur.row, hcol, hcs]; exact ⟨hin.1, hin.2.1, hin.2.2, by omega⟩
-      have hceq : c = t.col := by omega
       rw [if_pos hin, if_pos hin2]
       refine ⟨Or.inr ⟨Nat.lt_succ_of_le (h.mono l c), ?_, ?_⟩, by simp [h.writes l c]⟩
-      · simp [hceq, hcol]
-      · simp [hceq, h.attrs]
-    · have hin2 : ¬ (l = s.row ∧ s.col ≤ c ∧ c < s.col + 1 ∧ c < s.cols) := by
+      · simp [hcol]
+      · by_cases hceq : c = t.col <;> simp [hceq, h.attrs]
+    · have hin2 : ¬ (l = s.row ∧ s.col ≤ c ∧ c < s.col + w ∧ c < s.cols) := by
         rw [hcur.row, hcol]; intro hx; exact hin ⟨hx.1, hx.2.1, hx.2.2.1⟩
       rw [if_neg hin, if_neg hin2]
       exact ⟨h.cells l c, h.writes l c⟩
   have hri := hcur.rowIn
   have hrow := hcur.row
-  by_cases hedge : s.col + 1 ≥ s.cols
+  have hlastW : ∀ p, (t.putGlyphRaw bs w).last = some p →
+      (t0.cells p.1 p.2).writes < ((t.putGlyphRaw bs w).cells p.1 p.2).writes ∧
+      ∃ g, ((t.putGlyphRaw bs w).cells p.1 p.2).glyph = .chars g := by
+    intro p hp
+    have hl : (t.putGlyphRaw bs w).last = some (t.line, t.col) := rfl
+    rw [hl] at hp
+    simp only [Option.some.injEq] at hp
+    subst hp
+    rw [hg, if_pos ⟨rfl, Int.le_refl _, by omega⟩]
+    exact ⟨Nat.lt_succ_of_le (h.mono _ _), bs, by simp⟩
+  by_cases hedge : s.col + w ≥ s.cols
   · rw [if_pos hedge]
     refine ⟨?_, ?_, rfl⟩
     · exact { lines := h.lines, cols := h.cols, cols_pos := h.cols_pos, ground := h.ground, attrs := h.attrs, enc := h.enc,
               oracle := h.oracle, writes := fun l c => (hcells l c).2, cells := fun l c => (hcells l c).1 }
-    · refine { row := hrow, rowIn := hri, col := Or.inr ⟨rfl, ?_, ?_⟩, last := ?_ }
-      · show t.col + 1 = t.cols
+    · refine { row := hrow, rowIn := hri, col := Or.inr ⟨rfl, ?_, ?_⟩, last := ?_, lastW := hlastW }
+      · show t.col + w = t.cols
         omega
       · show s.cols - 1 = t.cols - 1
         omega
@@ -516,29 +499,232 @@ theorem char_sim {caps : TermPen.Caps} {t0 t : GridTerm} {s0 s : XScreen} (h : S
     refine ⟨?_, ?_, rfl⟩
     · exact { lines := h.lines, cols := h.cols, cols_pos := h.cols_pos, ground := h.ground, attrs := h.attrs, enc := h.enc,
               oracle := h.oracle, writes := fun l c => (hcells l c).2, cells := fun l c => (hcells l c).1 }
-    · refine { row := hrow, rowIn := hri, col := Or.inl ⟨hpend, ?_, ?_, ?_⟩, last := ?_ }
-      · show s.col + 1 = t.col + 1
+    · refine { row := hrow, rowIn := hri, col := Or.inl ⟨hpend, ?_, ?_, ?_⟩, last := ?_, lastW := hlastW }
+      · show s.col + w = t.col + w
         omega
-      · show 0 ≤ t.col + 1
+      · show 0 ≤ t.col + w
         omega
-      · show t.col + 1 < t.cols
+      · show t.col + w < t.cols
         omega
       · show some (s.row, s.col) = some (t.line, t.col)
         rw [hrow, hcol]
+
+/-- A zero-width character joins the same cell on both terminals (or is dropped on both). -/
+theorem zero_sim {caps : TermPen.Caps} {t0 t : GridTerm} {s0 s : XScreen} (h : Sim caps t0 s0 t s) (hcur : Cur t0 t s)
+    (bs : Bytes) :
+    Sim caps t0 s0 (t.addZeroWidth bs) (s.addZeroWidth bs) ∧ Cur t0 (t.addZeroWidth bs) (s.addZeroWidth bs) ∧
+    (s.addZeroWidth bs).lines = s.lines := by
+  have hl := hcur.last
+  cases hlast : t.last with
+  | none =>
+    have hsl : s.last = none := by rw [hl, hlast]
+    have e1 : t.addZeroWidth bs = t := by simp only [GridTerm.addZeroWidth, hlast]
+    have e2 : s.addZeroWidth bs = s := by simp only [XScreen.addZeroWidth, hsl]
+    rw [e1, e2]
+    exact ⟨h, hcur, rfl⟩
+  | some p =>
+    have hsl : s.last = some p := by rw [hl, hlast]
+    obtain ⟨hwp, g, hg⟩ := hcur.lastW p hlast
+    obtain ⟨hxg, hxa⟩ : (s.cells p.1 p.2).glyph = .chars g ∧ (s.cells p.1 p.2).attrs = expectAttrs caps (t.cells p.1 p.2).pen := by
+      rcases h.cells p.1 p.2 with ⟨h1, _⟩ | ⟨_, h2, h3⟩
+      · rw [h1] at hwp; exact absurd hwp (Nat.lt_irrefl _)
+      · rw [hg] at h2 h3
+        exact ⟨h2, by simpa using h3⟩
+    have e1 : t.addZeroWidth bs =
+        { t with cells := fun l c =>
+            if l = p.1 ∧ c = p.2 then
+              match (t.cells l c).glyph with
+              | .chars g => { t.cells l c with glyph := .chars (g ++ bs) }
+              | _ => t.cells l c
+            else t.cells l c } := by
+      unfold GridTerm.addZeroWidth
+      split
+      · rename_i hn; rw [hlast] at hn; cases hn
+      · rename_i q hq; rw [hlast] at hq; cases hq; rfl
+    have e2 : s.addZeroWidth bs =
+        { s with cells := fun l c =>
+            if l = p.1 ∧ c = p.2 then
+              match (s.cells l c).glyph with
+              | .chars g => { s.cells l c with glyph := .chars (g ++ bs) }
+              | _ => s.cells l c
+            else s.cells l c } := by
+      unfold XScreen.addZeroWidth
+      split
+      · rename_i hn; rw [hsl] at hn; cases hn
+      · rename_i q hq; rw [hsl] at hq; cases hq; rfl
+    rw [e1, e2]
+    have hcells : ∀ l c,
+        (((if l = p.1 ∧ c = p.2 then
+              match (t.cells l c).glyph with
+              | .chars g => { t.cells l c with glyph := .chars (g ++ bs) }
+              | _ => t.cells l c
+            else t.cells l c) = t0.cells l c ∧
+          (if l = p.1 ∧ c = p.2 then
+              match (s.cells l c).glyph with
+              | .chars g => { s.cells l c with glyph := .chars (g ++ bs) }
+              | _ => s.cells l c
+            else s.cells l c) = s0.cells l c) ∨
+         Written caps (t0.cells l c)
+          (if l = p.1 ∧ c = p.2 then
+              match (t.cells l c).glyph with
+              | .chars g => { t.cells l c with glyph := .chars (g ++ bs) }
+              | _ => t.cells l c
+            else t.cells l c)
+          (if l = p.1 ∧ c = p.2 then
+              match (s.cells l c).glyph with
+              | .chars g => { s.cells l c with glyph := .chars (g ++ bs) }
+              | _ => s.cells l c
+            else s.cells l c)) ∧
+        (if l = p.1 ∧ c = p.2 then
+              match (s.cells l c).glyph with
+              | .chars g => { s.cells l c with glyph := .chars (g ++ bs) }
+              | _ => s.cells l c
+            else s.cells l c).writes =
+        (if l = p.1 ∧ c = p.2 then
+              match (t.cells l c).glyph with
+              | .chars g => { t.cells l c with glyph := .chars (g ++ bs) }
+              | _ => t.cells l c
+            else t.cells l c).writes := by
+      intro l c
+      by_cases hpc : l = p.1 ∧ c = p.2
+      · obtain ⟨rfl, rfl⟩ := hpc
+        simp only [and_self, if_true, hg, hxg]
+        refine ⟨Or.inr ⟨hwp, rfl, ?_⟩, h.writes _ _⟩
+        simp [hxa]
+      · rw [if_neg hpc, if_neg hpc]
+        exact ⟨h.cells l c, h.writes l c⟩
+    refine ⟨?_, ?_, rfl⟩
+    · exact { lines := h.lines, cols := h.cols, cols_pos := h.cols_pos, ground := h.ground, attrs := h.attrs, enc := h.enc,
+              oracle := h.oracle, writes := fun l c => (hcells l c).2, cells := fun l c => (hcells l c).1 }
+    · refine { row := hcur.row, rowIn := hcur.rowIn, col := hcur.col, last := hcur.last, lastW := ?_ }
+      intro q hq
+      have hq' : t.last = some q := hq
+      rw [hlast] at hq'
+      simp only [Option.some.injEq] at hq'
+      subst hq'
+      show (t0.cells p.1 p.2).writes < (if p.1 = p.1 ∧ p.2 = p.2 then
+              match (t.cells p.1 p.2).glyph with
+              | .chars g => { t.cells p.1 p.2 with glyph := .chars (g ++ bs) }
+              | _ => t.cells p.1 p.2
+            else t.cells p.1 p.2).writes ∧ ∃ g', (if p.1 = p.1 ∧ p.2 = p.2 then
+              match (t.cells p.1 p.2).glyph with
+              | .chars g => { t.cells p.1 p.2 with glyph := .chars (g ++ bs) }
+              | _ => t.cells p.1 p.2
+            else t.cells p.1 p.2).glyph = .chars g'
+      simp only [and_self, if_true, hg]
+      exact ⟨hwp, g ++ bs, rfl⟩
+
+theorem wcwidth_range (cp : Nat) :
+    Tickit.RB.Utf8.wcwidth cp = -1 ∨ Tickit.RB.Utf8.wcwidth cp = 0 ∨ Tickit.RB.Utf8.wcwidth cp = 1 ∨
+    Tickit.RB.Utf8.wcwidth cp = 2 := by
+  unfold Tickit.RB.Utf8.wcwidth Tickit.RB.Utf8.mkWcwidth
+  repeat' split
+  all_goals simp
+
+/-- The columns from `col` suffice for the characters, one after the other (no wrap). -/
+def Fits (cols : Int) : Int → List Nat → Prop
+  | _, [] => True
+  | col, cp :: rest => col + Tickit.RB.Utf8.wcwidth cp ≤ cols ∧ Fits cols (col + Tickit.RB.Utf8.wcwidth cp) rest
+
+theorem putChL_pen (L : Int) (t : GridTerm) (c : Ch) : (t.putChL L c).pen = t.pen := by
+  unfold GridTerm.putChL GridTerm.putGlyphL GridTerm.wrapL GridTerm.addZeroWidth
+  repeat' split
+  all_goals rfl
+
+/-- One printable character with a width that fits on the line. -/
+theorem putCh_sim {caps : TermPen.Caps} {t0 t : GridTerm} {s0 s : XScreen} (h : Sim caps t0 s0 t s) (hcur : Cur t0 t s)
+    (cp : Nat) (hw0 : 0 ≤ Tickit.RB.Utf8.wcwidth cp) (hfit : t.col + Tickit.RB.Utf8.wcwidth cp ≤ t.cols) :
+    Sim caps t0 s0 (t.putChL s.lines (chOf cp)) (s.putCp cp) ∧ Cur t0 (t.putChL s.lines (chOf cp)) (s.putCp cp) ∧
+    (s.putCp cp).lines = s.lines ∧ (t.putChL s.lines (chOf cp)).col = t.col + Tickit.RB.Utf8.wcwidth cp ∧
+    (t.putChL s.lines (chOf cp)).cols = t.cols := by
+  have hnn : ¬ Tickit.RB.Utf8.wcwidth cp < 0 := by omega
+  rcases wcwidth_range cp with hw | hw | hw | hw
+  · omega
+  · have et : t.putChL s.lines (chOf cp) = t.addZeroWidth (stdUtf8 cp) := by
+      simp [GridTerm.putChL, chOf, hw]
+    have es : s.putCp cp = s.addZeroWidth (stdUtf8 cp) := by simp [XScreen.putCp, hw]
+    rw [et, es, hw]
+    obtain ⟨h1, h2, h3⟩ := zero_sim h hcur (stdUtf8 cp)
+    refine ⟨h1, h2, h3, ?_, ?_⟩
+    · unfold GridTerm.addZeroWidth; split <;> simp
+    · unfold GridTerm.addZeroWidth; split <;> rfl
+  · have hn : ¬ t.col + 1 > t.cols := by omega
+    have et : t.putChL s.lines (chOf cp) = t.putGlyphRaw (stdUtf8 cp) 1 := by
+      simp [GridTerm.putChL, GridTerm.putGlyphL, chOf, hw, hn]
+    have es : s.putCp cp = s.putWide (stdUtf8 cp) 1 := by simp [XScreen.putCp, hw]
+    rw [et, es, hw]
+    obtain ⟨h1, h2, h3⟩ := wide_sim h hcur (stdUtf8 cp) 1 (by omega) (by omega)
+    exact ⟨h1, h2, h3, rfl, rfl⟩
+  · have hn : ¬ t.col + 2 > t.cols := by omega
+    have et : t.putChL s.lines (chOf cp) = t.putGlyphRaw (stdUtf8 cp) 2 := by
+      simp [GridTerm.putChL, GridTerm.putGlyphL, chOf, hw, hn]
+    have es : s.putCp cp = s.putWide (stdUtf8 cp) 2 := by simp [XScreen.putCp, hw]
+    rw [et, es, hw]
+    obtain ⟨h1, h2, h3⟩ := wide_sim h hcur (stdUtf8 cp) 2 (by omega) (by omega)
+    exact ⟨h1, h2, h3, rfl, rfl⟩
+
+/-- A sequence of printable characters that fit on the line. -/
+theorem chars_sim {caps : TermPen.Caps} {t0 : GridTerm} {s0 : XScreen} :
+    ∀ (cps : List Nat) (t : GridTerm) (s : XScreen), Sim caps t0 s0 t s → Cur t0 t s →
+      (∀ cp ∈ cps, 0 ≤ Tickit.RB.Utf8.wcwidth cp) → Fits t.cols t.col cps →
+      Sim caps t0 s0 ((cps.map chOf).foldl (GridTerm.putChL s.lines) t) (cps.foldl XScreen.putCp s) ∧
+      Cur t0 ((cps.map chOf).foldl (GridTerm.putChL s.lines) t) (cps.foldl XScreen.putCp s) ∧
+      (cps.foldl XScreen.putCp s).lines = s.lines ∧
+      ((cps.map chOf).foldl (GridTerm.putChL s.lines) t).pen = t.pen
+  | [], _, _, h, hcur, _, _ => ⟨h, hcur, rfl, rfl⟩
+  | cp :: rest, t, s, h, hcur, hw, hfit => by
+    obtain ⟨hf1, hf2⟩ := hfit
+    obtain ⟨h1, h2, h3, h4, h5⟩ := putCh_sim h hcur cp (hw cp (by simp)) hf1
+    have ih := chars_sim rest (t.putChL s.lines (chOf cp)) (s.putCp cp) h1 h2 (fun x hx => hw x (by simp [hx]))
+      (by rw [h4, h5]; exact hf2)
+    rw [h3] at ih
+    obtain ⟨i1, i2, i3, i4⟩ := ih
+    simp only [List.map_cons, List.foldl_cons]
+    exact ⟨i1, i2, i3, by rw [i4]; exact putChL_pen _ _ _⟩
+
+/-- **print_sim**: a print request of at least one byte whose bytes are well-formed UTF-8 of printable code points with
+    a width, fitting on the line from the cursor - a CHAR cell, a TEXT run or a batch of LINE cells of a flush whose
+    content lies within the screen -, read by the VT screen, does what it does on the grid terminal: each character in
+    its columns (double-width: two, zero-width: joined to the one before) in the rendition of `tt->pen`, written once
+    more; the cursors advance alike. -/
+theorem print_sim {caps : TermPen.Caps} {t0 t : GridTerm} {s0 s : XScreen} (h : Sim caps t0 s0 t s) (hcur : Cur t0 t s)
+    (bs : List UInt8) (start len : Nat) (hlen : len ≠ 0) (cps : List Nat)
+    (hp : ∀ cp ∈ cps, Printable cp ∧ 0 ≤ Tickit.RB.Utf8.wcwidth cp)
+    (hsl : (bs.drop start).take len = cps.flatMap stdUtf8) (hfit : Fits t.cols t.col cps) :
+    Sim caps t0 s0 (t.stepL s.lines (.print bs start len)) (s.interp (reqCalls caps t.pen (.print bs start len)).flatten) ∧
+    Cur t0 (t.stepL s.lines (.print bs start len)) (s.interp (reqCalls caps t.pen (.print bs start len)).flatten) ∧
+    (s.interp (reqCalls caps t.pen (.print bs start len)).flatten).lines = s.lines ∧
+    (t.stepL s.lines (.print bs start len)).pen = reqPen t.pen (.print bs start len) := by
+  have es : s.interp (reqCalls caps t.pen (.print bs start len)).flatten = cps.foldl XScreen.putCp s := by
+    simp only [reqCalls, if_neg hlen, call_flatten, hsl]
+    exact XScreen.interp_text cps (fun cp hcp => (hp cp hcp).1) s h.ground
+  have et : t.stepL s.lines (.print bs start len) = (cps.map chOf).foldl (GridTerm.putChL s.lines) t := by
+    have hb : GridTerm.reqBytes t.viaWriteStr bs start len = cps.flatMap stdUtf8 := by
+      simp [GridTerm.reqBytes, hlen, hsl]
+    simp only [GridTerm.stepL, hb]
+    rw [printBytesL_flatMap _ _ _ (fun cp hcp => by
+      obtain ⟨⟨p1, p2, p3⟩, _⟩ := hp cp hcp
+      exact ⟨by omega, by omega⟩)]
+    rfl
+  rw [es, et]
+  obtain ⟨h1, h2, h3, h4⟩ := chars_sim cps t s h hcur (fun cp hcp => (hp cp hcp).2) hfit
+  exact ⟨h1, h2, h3, h4⟩
 
 /-! ### A sequence of requests -/
 
 /-- What the simulation asks of one request, given the grid terminal `t` it arrives at (`moved`: a goto has been seen,
     so the cursors agree): gotos at non-negative positions, pens the driver can say, erases of at least one cell that
-    are not `TICKIT_NO` and not under reverse video (then the driver prints spaces: not covered), print requests
-    carrying the UTF-8 form of one printable one-column code point with the cursor not in the pending-wrap state. -/
+    are not `TICKIT_NO` and not under reverse video (then the driver prints spaces: not covered), print requests of at
+    least one byte whose bytes are the UTF-8 forms of printable code points with a width (0, 1 or 2 columns by the
+    library's tables) that fit on the line from the cursor (no wrap). -/
 def ReqOK (caps : TermPen.Caps) (moved : Bool) (t : GridTerm) : Req → Prop
   | .goto l c => 0 ≤ l ∧ 0 ≤ c
   | .setpen p => PenEncodable caps p
   | .erasech n m => moved = true ∧ 1 ≤ n ∧ m ≠ .no ∧ Pen.getBool t.pen.reverse = false
   | .print bs start len =>
-    moved = true ∧ t.col < t.cols ∧
-    ∃ cp, Printable cp ∧ Tickit.RB.Utf8.wcwidth cp = 1 ∧ bs = stdUtf8 cp ∧ start = 0 ∧ len = (stdUtf8 cp).length
+    moved = true ∧ len ≠ 0 ∧
+    ∃ cps : List Nat, (∀ cp ∈ cps, Printable cp ∧ 0 ≤ Tickit.RB.Utf8.wcwidth cp) ∧
+      (bs.drop start).take len = cps.flatMap stdUtf8 ∧ Fits t.cols t.col cps
 
 def movedAfter (moved : Bool) : Req → Bool
   | .goto _ _ => true
@@ -553,9 +739,9 @@ def RunOK (caps : TermPen.Caps) (L : Int) : Bool → GridTerm → List Req → P
 /-- One request: the two terminals stay in step, `tt->pen` is what `reqPen` says, the cursors agree once a goto has been
     seen. -/
 theorem req_sim {caps : TermPen.Caps} {t0 t : GridTerm} {s0 s : XScreen} (h : Sim caps t0 s0 t s) (moved : Bool)
-    (hcur : moved = true → Cur t s) (r : Req) (hr : ReqOK caps moved t r) :
+    (hcur : moved = true → Cur t0 t s) (r : Req) (hr : ReqOK caps moved t r) :
     Sim caps t0 s0 (t.stepL s.lines r) (s.interp (reqCalls caps t.pen r).flatten) ∧
-    (movedAfter moved r = true → Cur (t.stepL s.lines r) (s.interp (reqCalls caps t.pen r).flatten)) ∧
+    (movedAfter moved r = true → Cur t0 (t.stepL s.lines r) (s.interp (reqCalls caps t.pen r).flatten)) ∧
     (s.interp (reqCalls caps t.pen r).flatten).lines = s.lines ∧
     (t.stepL s.lines r).pen = reqPen t.pen r := by
   cases r with
@@ -570,23 +756,15 @@ theorem req_sim {caps : TermPen.Caps} {t0 t : GridTerm} {s0 s : XScreen} (h : Si
     obtain ⟨h1, h2, h3⟩ := erase_sim h (hcur hm) n hn m hno hrv
     exact ⟨h1, fun _ => h2, h3, (GT.erasech_fields t n m hn).2.2.1⟩
   | print bs start len =>
-    obtain ⟨hm, hnp, cp, hp, hw, rfl, rfl, rfl⟩ := hr
-    obtain ⟨h1, h2, h3⟩ := char_sim h (hcur hm) hnp cp hp hw
-    refine ⟨h1, fun _ => h2, h3, ?_⟩
-    have hl := stdUtf8_length_ne cp
-    have hb : GridTerm.reqBytes t.viaWriteStr (stdUtf8 cp) 0 (stdUtf8 cp).length = stdUtf8 cp := by
-      simp [GridTerm.reqBytes, hl]
-    obtain ⟨p1, p2, p3⟩ := hp
-    have hn : ¬ t.col + 1 > t.cols := by omega
-    simp only [GridTerm.stepL, hb, GridTerm.printBytesL, termDecode_stdUtf8 cp (by omega) (by omega), hw,
-      GridTerm.putChsL, List.foldl_cons, List.foldl_nil, GridTerm.putChL, GridTerm.putGlyphL, reqPen]
-    simp [hn, GridTerm.putGlyphRaw]
+    obtain ⟨hm, hlen, cps, hp, hsl, hfit⟩ := hr
+    obtain ⟨h1, h2, h3, h4⟩ := print_sim h (hcur hm) bs start len hlen cps hp hsl hfit
+    exact ⟨h1, fun _ => h2, h3, h4⟩
 
 /-- **reqs_sim**: a sequence of requests the simulation covers (`RunOK`), read by the VT screen as the bytes the xterm
     driver writes for them one after the other (`reqsCalls`: `tt->pen` threaded through), leaves the VT screen in step
     with the grid terminal that executed the requests on a screen of as many lines. -/
 theorem reqs_sim {caps : TermPen.Caps} {t0 : GridTerm} {s0 : XScreen} :
-    ∀ (reqs : List Req) (t : GridTerm) (s : XScreen) (moved : Bool), Sim caps t0 s0 t s → (moved = true → Cur t s) →
+    ∀ (reqs : List Req) (t : GridTerm) (s : XScreen) (moved : Bool), Sim caps t0 s0 t s → (moved = true → Cur t0 t s) →
       RunOK caps s.lines moved t reqs →
       Sim caps t0 s0 (t.runL s.lines reqs) (s.interp (reqsCalls caps t.pen reqs).flatten)
   | [], t, s, _, h, _, _ => by simpa [GridTerm.runL, reqsCalls] using h
